@@ -387,9 +387,9 @@ func c11JoinOnSuite(r *Result, rng *rand.Rand, tier string) {
 	}
 	var ops [][]interface{}
 	var pend []pending
-	fams := []string{"S", "C", "U", "R"}
+	fams := []string{"S", "C", "U", "R", "E"}
 	for i := 0; i < n; i++ {
-		f := c11Families[fams[i%4]]
+		f := c11Families[fams[i%len(fams)]]
 		pts := f.parentTables()
 		t := pts[rng.Intn(len(pts))]
 		nodes := f.genNodes(rng, t, 0, true, 6, true)
